@@ -143,13 +143,22 @@ func solveAll(w *World, obls []*Obligation, secs int, depth int, seed int, workD
 			_ = os.WriteFile(file, []byte(text), 0644)
 			o.Script = file
 			if qfBodies[i] != "" && len(fulls[i]) == 0 {
-				// first attempt: without the quantified assumptions (sound; decides the easy goals fast)
-				qf := filepath.Join(workDir, fmt.Sprintf("o%04d_qf.smt2", i))
-				_ = os.WriteFile(qf, []byte(prelude+qfBodies[i]), 0644)
-				r0 := solveScript(qf, 2, order[:1], false)
-				if r0.result == "unsat" {
-					o.Result, o.Solver, o.Ms, o.Model = "unsat", r0.solver+"(qf-subset)", r0.ms, r0.output
-					return
+				// quick attempt with the full context, then without the quantified assumptions (sound:
+				// fewer assumptions; decides easy goals that the quantified context only slows down)
+				r0 := solveScript(file, 2, order[:1], false)
+				if r0.result == "unsat" || r0.result == "sat" {
+					o.Result, o.Solver, o.Ms, o.Model = r0.result, r0.solver, r0.ms, r0.output
+					if r0.result == "unsat" {
+						return
+					}
+				} else {
+					qf := filepath.Join(workDir, fmt.Sprintf("o%04d_qf.smt2", i))
+					_ = os.WriteFile(qf, []byte(prelude+qfBodies[i]), 0644)
+					r1 := solveScript(qf, 2, order[:1], false)
+					if r1.result == "unsat" {
+						o.Result, o.Solver, o.Ms, o.Model = "unsat", r1.solver+"(qf-subset)", r0.ms+r1.ms, r1.output
+						return
+					}
 				}
 			}
 			first := secs
